@@ -5,7 +5,7 @@ From Coq Require Import List Ascii ZArith Bool.
 From CGV Require Import Base.PyBase Base.PyVal Base.NxGraph Dialect.DialectImpl Reader.ReaderImpl Reader.Grammar
      Reader.ReaderCheck Reader.Lin Reader.ReaderSim Reader.ReaderMult Reader.ReaderUnit Reader.ReaderUnitLong Reader.ReaderEnd
      Gen.ReaderEnumGen Reader.ReaderSmall
-     Reader.ReaderTrack Reader.ReaderGSegs Reader.ReaderGLong.
+     Reader.ReaderTrack Reader.ReaderGSegs Reader.ReaderGLong Reader.ReaderX Reader.ReaderG2 Reader.ReaderG2Ast.
 Import ListNotations.
 Open Scope Z_scope.
 
@@ -158,6 +158,56 @@ Example C05_branch_gen_nonvacuous :
   /\ exists g, read_cgsmiles fo0 (gsegs_text l) = Ok g /\ length (nodes_data g) = 18%nat.
 Proof. vm_compute. repeat split. eexists. split; reflexivity. Qed.
 
+(** UNBOUNDED, ON ASTs - the property's own sentence for BRANCH multipliers.  [units_ok] (decidable,
+    Reader/ReaderG2Ast.v) asks: every branch chain is non-empty; a branch that carries a multiplier is a simple chain
+    (no ring marker, no nested branch); the anchor of a branch multiplied by n >= 2 that is its first branch carries no
+    ring marker (ring_in_unit otherwise); and the flat form of the AST passes [g2segs_ok] - items and names are those of the
+    grammar, parentheses balance, and where a multiplied branch stands the recipe table is in order ([g2track]: since the
+    outermost open branch was opened nothing was closed except sibling branches of the multiplied branch's own anchor
+    directly in front of it; the complement is stale_recipe).  The multiplied branch may stand at any depth, behind sibling
+    branches, and may be followed by closing parentheses.  Then the reader model on the SHORTHAND returns exactly the
+    denotation of the LONGHAND ([denote] runs the token machine on [expand_branches a], the branch multipliers written
+    out); and when the longhand is itself a string of the grammar (decidable), reading the shorthand = reading the
+    longhand, same graph, same numbering.
+    Missing from the full statement (named): (a) branches with a multiplier that are not simple chains - the three open
+    classes nested_in_unit / ring_in_unit, and the two harmless shapes "multiplier 1 on a branch with nested branches or
+    rings" and "the one nested shape the code expands correctly" (bounded only: C05_small); (b) stale_recipe; (c) NODE
+    multipliers are written out on flat strings (C05_nodes_partial), not in this AST-level statement: [expand_branches],
+    not [expand]; (d) texts without braces. *)
+Theorem C05_branch_ast_partial : forall fo a, units_ok fo a = true -> read_cgsmiles fo (print true a) = denote fo a.
+Proof. exact reader_sim_units. Qed.
+Theorem C05_branch_ast_longhand_partial : forall fo a, units_ok fo a = true ->
+  wf fo (expand_branches a) = true -> has_branch_mult (expand_branches a) = false ->
+  read_cgsmiles fo (print true a) = read_cgsmiles fo (print true (expand_branches a)).
+Proof. exact reader_units_longhand. Qed.
+(** the flat level behind it: multiplied branches followed by closings, items that close several branches *)
+Theorem C05_branch_flat_closings : forall fo l, g2segs_ok fo l = true ->
+  read_cgsmiles fo ("{"%char :: g2segs_str l ++ ["}"%char]) = denote_g2 fo l.
+Proof. exact reader_sim_g2. Qed.
+(** BOUNDED coverage of the side condition: on the complete enumerated list, every well-formed AST outside the three
+    open classes whose multiplied branches are simple chains satisfies [units_ok] (so the unbounded theorem applies to
+    it); [units_ok] also holds for 100 enumerated ASTs that the (coarser) class predicate stale_recipe flags *)
+Theorem C05_units_cover_small :
+  forallb (fun a => negb (wf fo_none a && Nat.eqb (class_C05 true a) 0 && negb (nonsimple_mult a)) || units_ok fo_none a) small_c05 = true.
+Proof. exact C05_units_cover_small_list. Qed.
+Theorem C05_units_cover_small_not_vacuous :
+  (2000 <=? length (filter (fun a => wf fo_none a && units_ok fo_none a && has_branch_mult a) small_c05))%nat = true.
+Proof. exact C05_units_cover_small_nonvacuous. Qed.
+(** non-vacuity: a multiplied branch inside a branch, behind a sibling branch, directly followed by ")", and a second
+    one at top level behind a sibling branch *)
+Example C05_branch_ast_nonvacuous :
+  let a := [Item (S "X") [] None None
+              [Branch [Item (S "A") [] None None
+                         [Branch [nd "B"] None None;
+                          Branch [nd "C"; Item (S "D") [] (Some [2%nat]) None []] (Some (Some SDouble, [2%nat])) None]] None None];
+            Item (S "F") [] None (Some SQuad) [Branch [nd "G"] None None; Branch [nd "H"] (Some (None, [3%nat])) None]] in
+  wf fo0 a = true /\ units_ok fo0 a = true
+  /\ wf fo0 (expand_branches a) = true /\ has_branch_mult (expand_branches a) = false
+  /\ print true a = S "{[#X]([#A]([#B])([#C][#D]|2)=|2)[#F]$([#G])([#H])|3}"
+  /\ print true (expand_branches a) = S "{[#X]([#A]([#B])([#C][#D]|2)=[#A]([#C][#D]|2))[#F]$([#G])([#H])[#F]([#H])[#F]([#H])}"
+  /\ exists g, read_cgsmiles fo0 (print true a) = Ok g /\ length (nodes_data g) = 17%nat.
+Proof. vm_compute. repeat split. eexists. split; reflexivity. Qed.
+
 (** BOUNDED: on the complete enumerated list [small_c05] (ASTs with <= 3 nodes and up to two multipliers
     from {2,3} on nodes / {1,2,3} on branches, symbols {none,#}; and <= 4 nodes, multipliers 2 on nodes /
     {2,3} on branches, at most one '='), outside the defect classes, and when no multiplied unit contains a nested
@@ -170,6 +220,9 @@ Proof. exact C05_small_nonvacuous. Qed.
 Print Assumptions C05_branch_partial.
 Print Assumptions C05_branch_partial_expanded.
 Print Assumptions C05_branch_partial_gen.
+Print Assumptions C05_branch_ast_partial.
+Print Assumptions C05_branch_ast_longhand_partial.
+Print Assumptions C05_branch_flat_closings.
 Print Assumptions C05_branch_partial_gen_expanded.
 Print Assumptions C05_nodes_partial.
 Print Assumptions C05_nodes_partial_nobrace.
